@@ -9,8 +9,10 @@
   populated value (`C18_sound_partial`, `C18_field_names`, `C18_refs_resolve`), and the argument-binding round trip.
   `jsonschema` tags (`Mcp.Model.SchemaTags`: the tag parser that exists, both formats, with its oddities): whatever the
   tags say, no field disappears (`C18_field_names_any_jsonschema_tag`); the directive splitter never yields an empty
-  directive (`C18_directives_nonempty`); "yields a JSON Schema document" holds for tags without NaN / Inf spellings
-  (`C18_tags_serialisable_partial`) and is FALSE with them (`C18_tag_nonfinite_witness`).
+  directive (`C18_directives_nonempty`); the parser is a family over the regenerated facts "tag numbers go through a
+  finiteness check": where they do — today's source, `C18_tag_numbers_finite_checked` — every tag yields keywords
+  encoding/json can print (`C18_tags_serialisable`); where they do not (the code before 068180d) `minimum=NaN` /
+  `maximum=Inf` make the schema unserialisable (`C18_tag_nonfinite_witness`).
   Termination of the three generators is Lean's own termination check of their transcriptions in `Mcp.Model.Schema`
   (structural recursion on the type, fuel only for unfolding a named type; no `partial`).
 -/
@@ -919,12 +921,12 @@ theorem C18_directives_nonempty (tag : Text) : ∀ d ∈ parseDirectives tag, d 
     are dropped, and a blank around `required` hides it from `isRequiredField` although the parser sees the directive -/
 theorem C18_tag_parser_witness :
     parseDirectives t!"pattern=^(a,b)$,required" = [t!"pattern=^(a", t!"b)$", t!"required"] ∧
-    (tagKeywords .str t!"pattern=^(a,b)$,required").pattern = t!"^(a" ∧
-    (tagKeywords .str t!"pattern=^(?!tmp)[a-z]+$").pattern = t!"^(?!tmp)[a-z]+$" ∧
+    (tagKeywords .checked .str t!"pattern=^(a,b)$,required").pattern = t!"^(a" ∧
+    (tagKeywords .checked .str t!"pattern=^(?!tmp)[a-z]+$").pattern = t!"^(?!tmp)[a-z]+$" ∧
     parseDirectives t!"description=d,pattern=x,required,title=t" = [t!"description=d, pattern=x, required", t!"title=t"] ∧
     parseDirectives t!"description=a;b,pattern=x" = [t!"description=a", t!"b,pattern=x"] ∧
-    (tagKeywords .str t!"enum=a,enum=b,c").enums = [t!"a", t!"b"] ∧
-    (tagKeywords .float t!"minimum=abc;maximum= 007.50 ;minLength=-1;maxLength=18446744073709551616") =
+    (tagKeywords .checked .str t!"enum=a,enum=b,c").enums = [t!"a", t!"b"] ∧
+    (tagKeywords .checked .float t!"minimum=abc;maximum= 007.50 ;minLength=-1;maxLength=18446744073709551616") =
       { maximum := some (750, 2) } ∧
     parseDirectives t!" required ;title=x" = [t!"required", t!"title=x"] ∧
     isRequired ⟨t!"F", t!"f", t!" required ;title=x", false⟩ false = false := by decide
@@ -956,60 +958,91 @@ private theorem classify_floatArg (d v : Text) (h : (classify d).floatArg = some
   · rw [h'] at h; cases h
   · rw [h'] at h; exact (Option.some.inj h).symm
 
-/-- a directive whose value is no spelling of NaN / ±Inf leaves the schema serialisable if it was -/
-private theorem applyDirective_finite (k : TagKind) (kw : TagKw) (d : Text)
-    (h : parseFloatLit (directiveValue d) ≠ .nonfinite) : (applyDirective k kw d).nonfinite = kw.nonfinite := by
+/-- one round of the directive loop leaves `nonfinite` alone if the parsers are finite-checked (`F.Good`) or if the
+    directive's value is no spelling of NaN / ±Inf -/
+private theorem applyDirective_finite (F : TagFacts) (k : TagKind) (kw : TagKw) (d : Text)
+    (h : F.Good ∨ parseFloatLit (directiveValue d) ≠ .nonfinite) : (applyDirective F k kw d).nonfinite = kw.nonfinite := by
   unfold applyDirective
-  have hv : ∀ v, (classify d).floatArg = some v → parseFloatLit v ≠ .nonfinite := by
+  have hv : ∀ v, (classify d).floatArg = some v → F.Good ∨ parseFloatLit v ≠ .nonfinite := by
     intro v hv; rw [classify_floatArg d v hv]; exact h
   generalize classify d = dir at hv
   cases dir <;> simp only [applyClassified, Directive.floatArg] at hv ⊢
   case minimum v =>
-    have := hv v rfl
-    split <;> first | rfl | (rename_i heq; exact absurd heq this)
+    rcases hv v rfl with hg | hn
+    · split <;> first | rfl | (simp only [hg.1, ite_true])
+    · split <;> first | rfl | (rename_i heq; exact absurd heq hn)
   case maximum v =>
-    have := hv v rfl
-    split <;> first | rfl | (rename_i heq; exact absurd heq this)
+    rcases hv v rfl with hg | hn
+    · split <;> first | rfl | (simp only [hg.2.1, ite_true])
+    · split <;> first | rfl | (rename_i heq; exact absurd heq hn)
   case dflt v =>
-    have := hv v rfl
     unfold defaultOf
     split
     · rfl
-    · split <;> first | rfl | (rename_i heq; exact absurd heq this)
+    · rcases hv v rfl with hg | hn
+      · split <;> first | rfl | (simp only [hg.2.2, ite_true])
+      · split <;> first | rfl | (rename_i heq; exact absurd heq hn)
     · rfl
     · rfl
   all_goals first | rfl | (split <;> rfl)
 
-/-- **Serialisable, partial**: if no directive of the tag carries a value that `strconv.ParseFloat` reads as NaN or
-    ±Inf, the keywords the parser sets are all printable by encoding/json (no non-finite bound or default). The full
-    statement ("generation yields a JSON Schema document" for every tag) is false: `C18_tag_nonfinite_witness`. -/
-theorem C18_tags_serialisable_partial (k : TagKind) (js : Text)
-    (h : ∀ d ∈ parseDirectives js, parseFloatLit (directiveValue d) ≠ .nonfinite) :
-    (tagKeywords k js).nonfinite = false := by
+private theorem foldl_finite (F : TagFacts) (k : TagKind) : ∀ (ds : List Text) (kw : TagKw),
+    (∀ d ∈ ds, F.Good ∨ parseFloatLit (directiveValue d) ≠ .nonfinite) →
+    (ds.foldl (applyDirective F k) kw).nonfinite = kw.nonfinite := by
+  intro ds
+  induction ds with
+  | nil => intro kw _; rfl
+  | cons d ds ih =>
+    intro kw hd
+    simp only [List.foldl_cons]
+    rw [ih _ (fun x hx => hd x (List.mem_cons_of_mem _ hx)), applyDirective_finite F k kw d (hd d (List.mem_cons_self ..))]
+
+/-- **Serialisable**: where every tag number goes through the finiteness check (`F.Good`: `minimum`, `maximum` and a
+    number-typed `default` are parsed by `parseFiniteFloat`, which rejects NaN and ±Inf), the keywords the parser sets
+    are printable by encoding/json for EVERY tag text — no tag can make the tool's schema (and with it tools/list of
+    the whole server) unserialisable. -/
+theorem C18_tags_serialisable (F : TagFacts) (hF : F.Good) (k : TagKind) (js : Text) :
+    (tagKeywords F k js).nonfinite = false := by
   unfold tagKeywords
   by_cases he : js = []
   · simp [he]
   · simp only [beq_iff_eq, he, ite_false]
-    have : ∀ (ds : List Text) (kw : TagKw), (∀ d ∈ ds, parseFloatLit (directiveValue d) ≠ .nonfinite) →
-        (ds.foldl (applyDirective k) kw).nonfinite = kw.nonfinite := by
-      intro ds
-      induction ds with
-      | nil => intro kw _; rfl
-      | cons d ds ih =>
-        intro kw hd
-        simp only [List.foldl_cons]
-        rw [ih _ (fun x hx => hd x (List.mem_cons_of_mem _ hx)), applyDirective_finite k kw d (hd d (List.mem_cons_self ..))]
-    exact this _ _ h
+    exact foldl_finite F k _ _ (fun _ _ => Or.inl hF)
 
-/-- `minimum=NaN`, `maximum=Inf`, `default=-inf` on a number: the parser sets a bound encoding/json refuses to print —
-    the generated schema is no JSON document (and tools/list fails for every tool of the server). `+nan` and `infin`
-    do not parse and are harmless; on an integer `default=inf` stays a string. -/
+/-- instance obligation: today's source is in that region (regenerated facts `Mcp.Gen.tagNumberParsers`,
+    `Mcp.Gen.tagFiniteCheck`: the three parsers are `parseFiniteFloat`, whose body rejects `math.IsNaN || math.IsInf`) -/
+theorem C18_tag_numbers_finite_checked : codeTagFacts.Good := by decide
+
+/-- … hence for the code as it is -/
+theorem C18_tags_serialisable_today (k : TagKind) (js : Text) : (tagKeywords codeTagFacts k js).nonfinite = false :=
+  C18_tags_serialisable _ C18_tag_numbers_finite_checked k js
+
+/-- **Serialisable, in any region** (also without the finiteness check): if no directive of the tag carries a value
+    that `strconv.ParseFloat` reads as NaN or ±Inf, the keywords are printable. Outside `F.Good` the hypothesis cannot
+    be dropped: `C18_tag_nonfinite_witness`. -/
+theorem C18_tags_serialisable_partial (F : TagFacts) (k : TagKind) (js : Text)
+    (h : ∀ d ∈ parseDirectives js, parseFloatLit (directiveValue d) ≠ .nonfinite) :
+    (tagKeywords F k js).nonfinite = false := by
+  unfold tagKeywords
+  by_cases he : js = []
+  · simp [he]
+  · simp only [beq_iff_eq, he, ite_false]
+    exact foldl_finite F k _ _ (fun d hd => Or.inr (h d hd))
+
+/-- the region the code was in before 068180d (`TagFacts.unchecked`: plain `strconv.ParseFloat`): `minimum=NaN`,
+    `maximum=Inf`, `default=-inf` on a number set a bound encoding/json refuses to print — the generated schema is no
+    JSON document (and tools/list fails for every tool of the server). `+nan` and `infin` do not parse and are
+    harmless; on an integer `default=inf` stays a string. With the check (`TagFacts.checked`) the same tags are ignored
+    like any unparsable number, a number default falls back to the string. -/
 theorem C18_tag_nonfinite_witness :
-    (tagKeywords .float t!"minimum=NaN").nonfinite = true ∧
-    (tagKeywords .int t!"required,maximum=Inf").nonfinite = true ∧
-    (tagKeywords .float t!"default=-inf").nonfinite = true ∧
-    (tagKeywords .float t!"minimum=+nan;maximum=infin").nonfinite = false ∧
-    (tagKeywords .int t!"default=inf") = { dflt := some (.str t!"inf") } := by decide
+    (tagKeywords .unchecked .float t!"minimum=NaN").nonfinite = true ∧
+    (tagKeywords .unchecked .int t!"required,maximum=Inf").nonfinite = true ∧
+    (tagKeywords .unchecked .float t!"default=-inf").nonfinite = true ∧
+    (tagKeywords ⟨true, false, true⟩ .float t!"minimum=NaN;maximum=Inf").nonfinite = true ∧
+    (tagKeywords .unchecked .float t!"minimum=+nan;maximum=infin").nonfinite = false ∧
+    (tagKeywords .unchecked .int t!"default=inf") = { dflt := some (.str t!"inf") } ∧
+    (tagKeywords .checked .float t!"minimum=NaN;maximum=Inf") = {} ∧
+    (tagKeywords .checked .float t!"default=-inf") = { dflt := some (.str t!"-inf") } := by decide
 
 /-! ## non-vacuity -/
 
@@ -1024,6 +1057,10 @@ example : frag Ex.tFrag = true ∧
     (match Ex.tFrag with
      | .struct fs => propertyNames (genInline (.struct (retag (fun _ => t!"required,pattern=^(?!tmp)[a-z]+$") fs)))
      | _ => []) = [t!"name", t!"count", t!"Ratio", t!"opt", t!"tags", t!"grid", t!"index"] := by decide
+
+/-- the good region of the tag facts is inhabited and excludes the facts of the code before 068180d (and every
+    partially checked variant) -/
+example : TagFacts.checked.Good ∧ ¬ TagFacts.unchecked.Good ∧ ¬ (TagFacts.mk true false true).Good := by decide
 
 /-- `C18_tags_serialisable_partial` applies to tags with bounds, patterns and unparsable numbers -/
 example : ∀ d ∈ parseDirectives t!"minimum=-0,maximum=abc,pattern=^(?!x)", parseFloatLit (directiveValue d) ≠ .nonfinite := by decide
